@@ -183,3 +183,116 @@ def write_if_changed(path: str, text: str) -> bool:
 
 
 HEADER = "(* GENERATED by tools/{tool} from {src} on every run - do not edit *)\nFrom Wz Require Import lib.Bytes.\nOpen Scope N_scope.\n\n"
+
+
+# ---------------------------------------------------------------- T2: boolean decision expressions
+
+class Atoms:
+    """atom table: normalised `ast.unparse` text of a sub-expression -> (Gallina term, type)
+    with type in {"nat", "optnat", "bool", "Z", "optZ"}; anything else is Unsupported."""
+
+    def __init__(self, table: dict[str, tuple[str, str]]):
+        self.table = {self.norm(k): v for k, v in table.items()}
+
+    @staticmethod
+    def norm(text: str) -> str:
+        return ast.unparse(ast.parse(text, mode="eval").body)
+
+    def get(self, node: ast.expr):
+        key = ast.unparse(node)
+        if key in self.table:
+            return self.table[key]
+        if isinstance(node, ast.Constant) and isinstance(node.value, int) and not isinstance(node.value, bool):
+            return (f"{node.value}%nat", "nat") if node.value >= 0 else (f"({node.value})%Z", "Z")
+        raise Unsupported(f"unknown atom: {key}")
+
+
+_CMP_NAT = {ast.Gt: lambda a, b: f"Nat.ltb {b} {a}", ast.Lt: lambda a, b: f"Nat.ltb {a} {b}",
+            ast.GtE: lambda a, b: f"Nat.leb {b} {a}", ast.LtE: lambda a, b: f"Nat.leb {a} {b}",
+            ast.Eq: lambda a, b: f"Nat.eqb {a} {b}", ast.NotEq: lambda a, b: f"negb (Nat.eqb {a} {b})"}
+_CMP_Z = {ast.Gt: lambda a, b: f"Z.ltb {b} {a}", ast.Lt: lambda a, b: f"Z.ltb {a} {b}",
+          ast.GtE: lambda a, b: f"Z.leb {b} {a}", ast.LtE: lambda a, b: f"Z.leb {a} {b}",
+          ast.Eq: lambda a, b: f"Z.eqb {a} {b}", ast.NotEq: lambda a, b: f"negb (Z.eqb {a} {b})"}
+
+
+def num_expr(node: ast.expr, atoms: Atoms):
+    """(term, type) of an arithmetic expression over nat/Z atoms (+ only; - on Z)."""
+    if isinstance(node, ast.BinOp) and isinstance(node.op, (ast.Add, ast.Sub)):
+        (a, ta), (b, tb) = num_expr(node.left, atoms), num_expr(node.right, atoms)
+        if ta != tb or ta not in ("nat", "Z"):
+            raise Unsupported(f"mixed arithmetic: {ast.unparse(node)}")
+        if isinstance(node.op, ast.Sub) and ta == "nat":
+            raise Unsupported(f"nat subtraction: {ast.unparse(node)}")
+        op = "+" if isinstance(node.op, ast.Add) else "-"
+        return f"({a} {op} {b})", ta
+    return atoms.get(node)
+
+
+def bool_expr(node: ast.expr, atoms: Atoms) -> str:
+    """Gallina bool term for a Python boolean expression built from and/or/not, comparisons of
+    nat/Z expressions (an option-typed operand compares as false when None: such comparisons must
+    be guarded by `is not None` in the source, which the short-circuit `and` reproduces), and
+    `x is None` / `x is not None` on option-typed atoms."""
+    if isinstance(node, ast.BoolOp):
+        parts = [bool_expr(v, atoms) for v in node.values]
+        op = " && " if isinstance(node.op, ast.And) else " || "
+        return "(" + op.join(parts) + ")"
+    if isinstance(node, ast.UnaryOp) and isinstance(node.op, ast.Not):
+        return f"(negb {bool_expr(node.operand, atoms)})"
+    if isinstance(node, ast.Compare):
+        # chained comparisons a < b < c -> (a < b) && (b < c)
+        terms = []
+        left = node.left
+        for op, right in zip(node.ops, node.comparators):
+            if isinstance(op, (ast.Is, ast.IsNot)):
+                if not (isinstance(right, ast.Constant) and right.value is None):
+                    raise Unsupported(f"is-comparison with non-None: {ast.unparse(node)}")
+                t, ty = atoms.get(left)
+                if not ty.startswith("opt"):
+                    raise Unsupported(f"`is None` on non-option atom {ast.unparse(left)}")
+                isnone = f"(match {t} with None => true | Some _ => false end)"
+                terms.append(isnone if isinstance(op, ast.Is) else f"(negb {isnone})")
+            else:
+                (a, ta), (b, tb) = num_expr(left, atoms), num_expr(right, atoms)
+                base_a, base_b = ta.replace("opt", "").lower(), tb.replace("opt", "").lower()
+                base_a = "Z" if base_a == "z" else base_a
+                base_b = "Z" if base_b == "z" else base_b
+                if base_a != base_b or type(op) not in _CMP_NAT:
+                    raise Unsupported(f"comparison not supported: {ast.unparse(node)}")
+                tab = _CMP_NAT if base_a == "nat" else _CMP_Z
+                binders = []
+                if ta.startswith("opt"):
+                    binders.append((a, "oa_x"))
+                    a = "oa_x"
+                if tb.startswith("opt"):
+                    binders.append((b, "ob_x"))
+                    b = "ob_x"
+                core = tab[type(op)](a, b)
+                for term, var in reversed(binders):
+                    core = f"(match {term} with Some {var} => {core} | None => false end)"
+                terms.append(f"({core})")
+            left = right
+        return "(" + " && ".join(terms) + ")"
+    t, ty = atoms.get(node)
+    if ty != "bool":
+        raise Unsupported(f"non-boolean atom used as condition: {ast.unparse(node)}")
+    return t
+
+
+def find_method(cls: ast.ClassDef, name: str) -> ast.FunctionDef:
+    found = [n for n in cls.body if isinstance(n, ast.FunctionDef) and n.name == name]
+    if len(found) != 1:
+        raise Unsupported(f"expected exactly one method {cls.name}.{name}, found {len(found)}")
+    return found[0]
+
+
+def ifs_raising(fn: ast.AST, exc_name: str) -> list[ast.If]:
+    """the `if` statements in fn whose body is exactly `raise <exc_name>(...)`"""
+    out = []
+    for n in ast.walk(fn):
+        if isinstance(n, ast.If) and len(n.body) == 1 and isinstance(n.body[0], ast.Raise):
+            e = n.body[0].exc
+            f = e.func if isinstance(e, ast.Call) else e
+            if isinstance(f, ast.Name) and f.id == exc_name:
+                out.append(n)
+    return out
